@@ -21,15 +21,17 @@ namespace GeographicLib {
 
   void Georef::Forward(real lat, real lon, int prec, string& georef) {
     using std::isnan;           // Needed for Centos 7, ubuntu 14
+    using std::isfinite;
     if (fabs(lat) > Math::qd)
       throw GeographicErr("Latitude " + Utility::str(lat)
                           + "d not in [-" + to_string(Math::qd)
                           + "d, " + to_string(Math::qd) + "d]");
-    if (isnan(lat) || isnan(lon)) {
+    if (isnan(lat) || !isfinite(lon)) { // AngNormalize(+/-inf) is a NaN
       georef = "INVALID";
       return;
     }
-    lon = Math::AngNormalize(lon); // lon in [-180,180)
+    lon = Math::AngNormalize(lon);
+    if (lon == Math::hd) lon = -Math::hd; // lon now in [-180,180)
     if (lat == Math::qd) lat *= (1 - numeric_limits<real>::epsilon() / 2);
     prec = max(-1, min(int(maxprec_), prec));
     if (prec == 1) ++prec;      // Disallow prec = 1
